@@ -272,6 +272,29 @@ func runC12(env *core.Env) {
 			id   string
 		}{"hand-merged-equal-timestamps", core.Store{".ergo/plans.jsonl": l.Bytes(), ".ergo/lock": {}}, first})
 	}
+	{ // a hand-merged log in which six epics and three tasks were created at the same instant, each line spelling that
+		// instant differently (Z, +00:00, a shifted offset, with and without a zero fraction)
+		l := newSynLog()
+		spell := []string{"2026-05-05T12:00:00Z", "2026-05-05T12:00:00+00:00", "2026-05-05T13:00:00+01:00", "2026-05-05T07:00:00-05:00", "2026-05-05T12:00:00.000Z", "2026-05-05T17:30:00.0+05:30"}
+		var first string
+		for i, ts := range spell {
+			id := core.IDFor(int64(800 + i))
+			if i == 0 {
+				first = id
+			}
+			l.ev("new_epic", ts, map[string]interface{}{"id": id, "uuid": "u" + id, "epic_id": "", "state": "todo", "title": fmt.Sprintf("epic %d", i), "body": "", "created_at": ts})
+		}
+		for i := 0; i < 3; i++ {
+			id := core.IDFor(int64(810 + i))
+			ts := spell[(i*2+1)%len(spell)]
+			l.ev("new_task", ts, map[string]interface{}{"id": id, "uuid": "u" + id, "epic_id": first, "state": "todo", "title": fmt.Sprintf("task %d", i), "body": "", "created_at": ts})
+		}
+		seeds = append(seeds, struct {
+			name string
+			st   core.Store
+			id   string
+		}{"hand-merged-one-instant-spelled-six-ways", core.Store{".ergo/plans.jsonl": l.Bytes(), ".ergo/lock": {}}, first})
+	}
 	{ // a hand-merged log with dependency cycles (each clone added one direction): six tasks of one epic in a ring, two
 		// downstream of it, two unfiled tasks depending on each other, two epics depending on each other
 		l := newSynLog()
@@ -337,6 +360,8 @@ func runC12(env *core.Env) {
 			core.R("", "--json", "list", "--all"), core.R("", "--json", "list", "--epics"), core.R("", "--json", "list", "--ready"), core.R("", "--json", "list"),
 			core.R("", "list", "--all").In(""), core.R("", "list", "--epics").In(""), core.R("", "list").In(""),
 			core.R("", "--json", "show", id), core.R("", "show", id).In(""), core.R("", "--json", "prune"), core.R("", "--json", "where"),
+			// quiet mode silences hints, not errors
+			core.R("", "-q", "list").In(""), core.R("", "--json", "list", "--all", "-q"), core.R("", "-q", "show", id).In(""), core.R("", "--quiet", "--json", "prune"),
 		}
 	}
 	muts := func(id string) []core.Req {
@@ -345,7 +370,7 @@ func runC12(env *core.Env) {
 			core.R("", "--json", "prune", "--yes"), core.R("", "--json", "plan").In(`{"title":"P","tasks":[{"title":"a"}]}`), core.R("", "--json", "compact"),
 		}
 	}
-	var evals, commands, failing, nondet int64
+	var evals, commands, failing, nondet, spawnedMsgs int64
 	classes := newCounter()
 	samples := &sampleSet{max: 10}
 	conf := newConformer(len(jobs)*3/280+1, 300)
@@ -385,6 +410,16 @@ func runC12(env *core.Env) {
 					if res.Exit != 0 {
 						atomic.AddInt64(&failing, 1)
 						e := string(res.Err)
+						// the error line is printed by cmd/ergo's exit path, which the in-process server only mirrors: for the
+						// quiet variants and one plain read per log the message is taken from a spawned production binary
+						if quiet := contains(req.Args, "-q") || contains(req.Args, "--quiet"); quiet || strings.Join(r.Args, " ") == "--json list --all" {
+							sreq := req
+							sreq.RandBase = -1
+							if sres := w.Spawn(sreq); sres.Exit != 0 {
+								e = string(sres.Err)
+								atomic.AddInt64(&spawnedMsgs, 1)
+							}
+						}
 						if !strings.HasPrefix(e, "error:") || len(strings.TrimSpace(e)) < 8 {
 							bad("failure-without-message cmd="+opClass(req), req.Shell()+" -> "+res.String(), []core.Req{r}, Assert{Kind: "exit_nonzero", Step: 1})
 						}
@@ -450,7 +485,8 @@ func runC12(env *core.Env) {
 	env.Finish("model_checking", map[string]interface{}{
 		"states": evals, "transitions": commands, "traces_validated_against_impl": validated, "samples": samples.list,
 		"evaluations": evals, "distinct_nontrivial": classes.len(), "exhaustive": env.TimeLeft(),
-		"rule":         "log contents = seeds (CLI-produced logs, a hand-merged log with equal timestamps, a hand-merged log with dependency cycles among siblings, unfiled tasks and epics, thorough: the legacy sample) x {every truncation offset (quick: last two lines fully, every 7th elsewhere), every line delete/duplicate/adjacent swap, conflict markers / unknown event type / blank lines at every position, all permutations of the first 5 (6) lines, one (8) bit flips per byte, every field of every event replaced by null/0/true/[]/{}/\"\"/bad timestamps/a 120-byte and a 120-column string or removed, all timestamps of a line removed or emptied, empty/CRLF/BOM/NUL/garbage/no-trailing-newline, a 10 MiB-1 and a 10 MiB+1 line}; each x 11 read commands (3x, 8x on equal sort keys) and 6 mutating commands; distinct = (mutation family, command, exit)",
+		"rule":         "log contents = seeds (CLI-produced logs, a hand-merged log with equal timestamps, a hand-merged log with dependency cycles among siblings, unfiled tasks and epics, thorough: the legacy sample) x {every truncation offset (quick: last two lines fully, every 7th elsewhere), every line delete/duplicate/adjacent swap, conflict markers / unknown event type / blank lines at every position, all permutations of the first 5 (6) lines, one (8) bit flips per byte, every field of every event replaced by null/0/true/[]/{}/\"\"/bad timestamps/a 120-byte and a 120-column string or removed, all timestamps of a line removed or emptied, empty/CRLF/BOM/NUL/garbage/no-trailing-newline, a 10 MiB-1 and a 10 MiB+1 line}; each x 15 read commands (4 of them with -q / --quiet) (3x, 8x on equal sort keys) and 6 mutating commands; distinct = (mutation family, command, exit)",
+		"error_messages_checked_on_spawned_binary": spawnedMsgs,
 		"commands_run": commands, "commands_exiting_1": failing, "nondeterministic_outputs": nondet, "seeds": len(seeds),
 		"unconfirmed_candidates": unconfirmed.Load(),
 	}, []string{
